@@ -348,7 +348,7 @@ func (c *Checker) a4p(r *report.Report, p RTPair) {
 	assumed := map[string]bool{}
 	srcs := p.Sources(c)
 	for _, src := range srcs {
-		opts := ComposeOpts{Computed: map[string]*lin.Form{}, Why: map[string]string{}, Start: p.Start, Params: map[string]lin.Form{}}
+		opts := ComposeOpts{Computed: map[string]*lin.Form{}, Why: map[string]string{}, Start: p.Start, Params: map[string]lin.Form{}, ExactLen: p.ExactLen}
 		for path, fn := range p.Computed {
 			opts.Computed[path] = fn(src)
 			opts.Why[path] = p.Why[path]
@@ -417,6 +417,8 @@ func (c *Checker) a4p(r *report.Report, p RTPair) {
 		case a.ok == 0:
 			if why, ok := p.NotWritten[path]; ok {
 				r.OK("A4", k, pos, "not part of the table ("+why+")")
+			} else if p.ElsewherePrefix != "" && strings.HasPrefix(path, p.ElsewherePrefix) {
+				r.OK("A4", k, pos, "not carried by these reference encodings; "+p.ElsewhereWhy)
 			} else if _, isComputed := p.Computed[path]; isComputed {
 				r.OK("A4", k, pos, "exempt: "+p.Why[path])
 			} else {
